@@ -25,6 +25,24 @@ func (x *Exec) resultOf(sig *types.Signature, rs []Val) Val {
 func (x *Exec) call(st *State, c *ssa.Call, k func(st *State, res Val)) {
 	e := x.e
 	com := c.Common()
+	// assertions attached to call sites of the function under verification
+	if fr := st.ext().fr; fr != nil && fr.parent == nil && x.spec != nil && (len(x.spec.Asserts) > 0 || os.Getenv("GOVC_CALLS") != "") && x.pure == 0 {
+		ord := x.ordinal(c, "call")
+		if os.Getenv("GOVC_CALLS") != "" {
+			fmt.Fprintf(os.Stderr, "call#%d %s %s\n", ord, x.qname, c.String())
+		}
+		if cls := x.spec.Asserts[fmt.Sprintf("call#%d", ord)]; len(cls) > 0 {
+			env := x.envAt(st, fr)
+			for _, cl := range cls {
+				g := x.evalBool(st, env, cl)
+				if !x.primary {
+					st.assume(g)
+					continue
+				}
+				x.oblige(st, fmt.Sprintf("%s/assert@call#%d.%d", x.qname, ord, cl.Ord), "assert", g, cl.Text, fmt.Sprintf("%s:%d", cl.File, cl.Line), nil)
+			}
+		}
+	}
 	if com.IsInvoke() {
 		recv := x.val(st, com.Value)
 		var args []Val
